@@ -11,7 +11,7 @@ Open Scope Z_scope.
 
 Inductive dval := DInt (z : Z) | DOther.     (* a dictionary value: Integer or not *)
 
-Definition max_n : Z := 10000.                (* the literal in getObjStm *)
+Definition max_n : Z := maxObjStmMembers.     (* translated from reader.go *)
 Definition max_uint32 : Z := 4294967295.
 Definition max_int : Z := 9223372036854775807.
 
@@ -104,4 +104,47 @@ Definition objstm_find (n_o first_o : dval) (ints : list (Z * Z)) (tail_err : cl
   match get_objstm n_o first_o ints tail_err with
   | Err c => Err c
   | Ok ix => lookup_member ix number
+  end.
+
+(* ------------------------------------------------------------------ *)
+(* ownership of the decoded reader (the ReadCloser that DecodeStream returns:
+   behind it may be a pipe fed by a producer goroutine, which is released only
+   by Close) *)
+
+Inductive rstate :=
+| RNone        (* DecodeStream was not called, or failed: nothing to close *)
+| ROpen        (* open *)
+| RClosed.     (* Close was called *)
+
+Definition n_ok (n_o : dval) : bool :=
+  match n_o with
+  | DInt n => negb ((n <? 0) || (max_n <? n))
+  | DOther => false
+  end.
+
+(* getObjStm with what happens to the reader.  [close_on_error] = true: the
+   code as it is (F55: `defer func() { if err != nil { decoded.Close() } }()`);
+   false: the code before.  [derr]: DecodeStream itself fails.
+   On success the reader is part of the returned *objStm: it is the caller's. *)
+Definition get_objstm_own (close_on_error : bool) (derr : option cls)
+           (n_o first_o : dval) (ints : list (Z * Z)) (tail_err : cls) : res index * rstate :=
+  if negb (n_ok n_o) then (Err Malformed, RNone)        (* before DecodeStream *)
+  else
+    match derr with
+    | Some c => (Err c, RNone)
+    | None =>
+      match get_objstm n_o first_o ints tail_err with
+      | Ok ix => (Ok ix, ROpen)
+      | Err c => (Err c, if close_on_error then RClosed else ROpen)
+      end
+    end.
+
+(* getFromObjStm: `defer contents.Close()` once getObjStm has succeeded; the
+   lookup, Discard and ReadObject may fail afterwards *)
+Definition get_from_objstm_own (close_on_error : bool) (derr : option cls)
+           (n_o first_o : dval) (ints : list (Z * Z)) (tail_err : cls) (number : Z)
+  : res found * rstate :=
+  match get_objstm_own close_on_error derr n_o first_o ints tail_err with
+  | (Ok ix, _) => (lookup_member ix number, RClosed)
+  | (Err c, st) => (Err c, st)
   end.
